@@ -153,11 +153,52 @@ class SlowTeardown:
         return []
 
 
+class OverlappingShutdown:
+    """two shutdown calls overlapping in time (Close+Close, Close+DeletePeer, DeletePeer+Close) while the session's OnClose is
+    slow: every OnEstablished is matched by its OnClose no later than the return of *each* Close/DeletePeer call"""
+    no_model = True
+
+    def __init__(self, sid, first, second, gap, direction):
+        self.sid, self.first, self.second, self.gap, self.direction = sid, first, second, gap, direction
+        self.tag = "overlapping-shutdown.%s-%s.%d.%s" % (first, second, gap, direction)
+        self.remote_id = 0x0A000002
+
+    def scenario(self):
+        op = OPENB(65000, 0x0A000002)
+        st = [["dial", "c1"]] if self.direction == "in" else [["accept", "c1", 2500]]
+        st += [["recv", "c1", 1, 1500], ["send", "c1", op, 0], ["send", "c1", KA, 0], ["recv", "c1", 2, 1500], ["sleep", 30],
+               ["api_async", self.first], ["sleep", self.gap], ["api_async", self.second], ["sleep", 700]]
+        return {"id": self.sid, "local_as": 65001, "remote_as": 65000, "local_id": 0x0A000001, "hold": 90,
+                "passive": self.direction == "in", "idle_hold_ms": 3000, "connect_retry_ms": 3000, "caps": [], "on_open": None,
+                "handler": [], "est_writes": [], "onclose_delay_ms": 300, "steps": st}
+
+    def model_case(self):
+        return None
+
+    def check(self, r):
+        open_sessions = 0
+        for cb in sorted(r["cbs"] or [], key=lambda x: x["seq"]):
+            if cb["name"] == "OnEstablished" and cb["ph"] == "enter":
+                open_sessions += 1
+            elif cb["name"] == "OnClose" and cb["ph"] == "exit":
+                open_sessions -= 1
+            elif cb["name"] == "API-RETURN" and cb["ph"] in ("close", "delete") and open_sessions > 0:
+                return ["%s returned while the OnClose matching an OnEstablished had not completed (overlapping %s and %s)"
+                        % ({"close": "Server.Close", "delete": "DeletePeer"}[cb["ph"]], self.first, self.second)]
+        return []
+
+
 def items(rng, tier):
     n = 60 if tier == "quick" else 800
     out = [Chaos(i, rng, passive=(i % 4 == 0)) for i in range(n)]
     for k, gap in enumerate((5, 30, 120)):
         out.append(SlowTeardown(n + k, "handler", gap))
+    k = n + 10
+    for first, second in (("close", "close"), ("close", "delete"), ("delete", "close")):
+        for gap in (5, 60):
+            for direction in ("in", "out"):
+                out.append(OverlappingShutdown(k, first, second, gap, direction))
+                k += 1
     return out
 
 
